@@ -31,6 +31,21 @@ BUILT = {
  "C12": dict(tech="TLA+ dtype-kind table (Fields.tla WellTypedSlots, TLC) + walk of every variable/attribute of real trees (declared vs loaded dtype/shape, repr/nbytes, selections)",
              text="TLC checks that every exposed field has kind in biufcMmU and that all fields feeding a variable agree; trees of 1.1/1.5/3.1 products (1-4 images, three designators, value plans) are walked: numpy dtype advertised before loading, declared == loaded shape/dtype, plain attribute types, repr/str/nbytes of tree and datasets, 11 selections keep declared == loaded.",
              note="numpy scalars count as plain scalars; None/dict/ndarray attributes do not", ref="6 C12"),
+ "C13": dict(tech="TLA+ pipeline model (OpenCall.tla) over an enumerated product family, TLC exhaustive + every exported product synthesised with per-file salts and opened twice",
+             text="TLC checks ExactlyKGroups, GroupOwnsItsFile, MetaMatchesLeader, NoTrailerAccess over 1170 products (sequences of 1..3 distinct (pol, scan) x map projection) and GroupNameInjective; the products are synthesised with distinct pixels and line numbers per file and opened twice in one process: node set/order, names, which file each group serves, /metadata children, root attributes, coordinate promotion.",
+             note="quick replays a deterministic third of the family plus random 4..8-image products in unsorted listing order", ref="6 C13"),
+ "C14": dict(tech="TLA+ summary grammar (abstract lines, Parse, numbered file roles) checked by TLC over all permutations / corruption subsets + generated texts and corruptions replayed through open_alos2",
+             text="TLC checks OrderIndependent and ErrorSetExact on every summary up to 3 lines x every permutation; the exported conversion table drives the oracle for ~40-entry generated texts (3 ordering modes, LF/CRLF, blanks/=/quotes/non-ASCII in values, 3..10 files, 1..8 shapes) and 11 corruption kinds on 1..12 lines: exact error-group line numbers required.",
+             note="error line numbers are 0-based as the pinned suite fixes them; keys unique per section", ref="6 C14"),
+ "C15": dict(tech="TLA+ identifier grammar over the code tables, enumerated exhaustively by TLC (3600 product ids + structural near-misses) with expected decodings exported; every point decoded by the real decoders, plus all dates, file-name sample, end-to-end products",
+             text="TLC checks TenCharacters, DecodingTotal, NearMissInvalid, GroupNameInjective and exports each id with its table meaning; all are decoded by the implementation together with a scene id for every date 2014-2049, all scan suffixes, 20 000 composed file names (3.8e5 thorough), malformed strings (must raise ValueError) and 40 products NAMED with sampled ids opened through open_alos2.",
+             note="decoder functions are a fast path (non-public import), confirmed end to end on a stratified sample", ref="6 C15"),
+ "C17": dict(tech="TLA+ calendar arithmetic (two routes to a day number) checked by TLC over boundary instants, each exported instant written into all time-bearing fields of one product and read back",
+             text="TLC checks AllDecodersAgree/LeapDay/LastDay/DayInMonth over 7 years x days {1,2,59,60,61,365,366} x 4 times x 3 us remainders (552 instants); each instant (+ random ones) is written simultaneously into image line ms/us stamps, attitude points, platform-position first point, scene centre, volume creation and 9 read-back points are compared at stored resolution.",
+             note="one KNOWN FINDING (attitude times one day late) is listed in KNOWN_FINDINGS.txt because the pinned tests fix that convention", ref="6 C17"),
+ "C19": dict(tech="TLA+ model of concurrent loads (threads x handles x lock; TLC all interleavings incl. required counterexample for the shared-handle variant) + deterministic scheduler replaying TLC behaviours on real trees + TLC validation of every realised schedule",
+             text="TLC: ServedIsWanted, ResultsSequential, MutualExclusion, Termination for 5 design configs and the mandatory violation for shared handle without lock; a scheduler owning the vtrace yield points replays all 70 interleavings of two one-chunk loads and TLC-simulated behaviours for same-variable / two-variable / pickled-copy / three-thread scenarios; realised event orders are validated by Trace_Loads.",
+             note="lock acquisition is not a yield point (blocked threads are skipped); pickled copies live in the same process", ref="6 C19"),
  "C16": dict(tech="frozen TLA+ field tables + Framing/Fields models (TLC) + value plans over the volume directory with 0..12 file pointers replayed through open_alos2",
              text="Every text field of the volume descriptor and text record holds tokens of rotating classes (full width, inner/leading blanks, quotes, punctuation, blank) with 5 boundary creation timestamps and every pointer count 0..12; root attributes compared (stripped text, creation time as an instant).",
              note="same provenance limits as C03", ref="6 C16"),
